@@ -113,9 +113,9 @@ PROPS['C13'] = dict(
           _f1_kani('t1', 20, 'f1_contract_beta1', 'thorough'),
           _f1_kani('t05', 20, 'f1_contract_beta_half', 'thorough'),
           _f1_kani('t2', 20, 'f1_contract_beta2', 'thorough')],
-    claim='metrics::_f1 (extracted text, Kani function contract): precision, recall, F-beta finite and in [0,1]; (1,1,1) when fp == fn == 0 < tp; (0,0,0) when tp == 0 -- complete over the stated count domain because _f1 is loop-free; binary_f1: Err iff the lengths differ (no panic), otherwise the F-beta of the four-way counts.',
-    not_covered=['spelling_correction_f1 path (_group_words and its closing assert!: known to panic for an empty prediction, see DESIGN 8), sequence averaging (float sums), accuracy, mean edit distances (rayon + floats)', 'whitespace-correction counts as set comparison (lazy HashSet intersection/difference iterators)', '_count_tp_fp_fn itself (zip/fold with tuple-pattern closure): assumed'],
-    assumptions=['_count_tp_fp_fn returns the four-way counts'],
+    claim='metrics::_f1 (extracted text, Kani function contract): precision, recall, F-beta finite and in [0,1]; (1,1,1) when fp == fn == 0 < tp; (0,0,0) when tp == 0 -- complete over the stated count domain because _f1 is loop-free; _f1 formula (Verus): precision = tp/max(tp+fp,1), recall = tp/max(tp+fn,1), F-beta = (1+b^2)PR/(b^2 P + R) or 0, as terms over float operations; _count_tp_fp_fn == the four-way counts (fold desugared by R20); binary_f1: Err iff the lengths differ (no panic), otherwise the F-beta of the four-way counts; TpFpFn::micro_f1 == F-beta of the SUMMED counts.',
+    not_covered=['spelling_correction_f1 path (_group_words and its closing assert!: known to panic for an empty prediction, see DESIGN 8), sequence averaging (float sums), accuracy, mean edit distances (rayon + floats)', 'whitespace-correction counts as set comparison (lazy HashSet intersection/difference iterators)', 'TpFpFn::sequence_averaged_f1'],
+    assumptions=['IEEE float + * / are total deterministic functions (results uninterpreted in Verus); x as f64 and powi are uninterpreted'],
     domain=['quick: tp, fp, fn < 2^10, beta = 1; thorough: < 2^20, beta in {0.5, 1, 2}'],
 )
 
